@@ -244,6 +244,19 @@ var c06Patterns = []string{"*", "k*", "?1", "k[ab]*", "k[a-c]1", "k[^a]1", "k\\*
 func c06Gen(rng *rand.Rand, m *model.Model, keys []string) []string {
 	k := pick(rng, keys)
 	k2 := pick(rng, keys)
+	if rng.Intn(40) == 0 {
+		// wide commands: 65-200 keys in one command
+		w := 65 + rng.Intn(136)
+		a := []string{pick(rng, []string{"DEL", "UNLINK", "EXISTS", "TOUCH", "MGET"})}
+		for i := 0; i < w; i++ {
+			if i%9 == 0 {
+				a = append(a, pick(rng, keys))
+			} else {
+				a = append(a, "nokey"+strconv.Itoa(i))
+			}
+		}
+		return a
+	}
 	switch rng.Intn(40) {
 	case 0:
 		return []string{"SET", k, pick(rng, []string{"v", "10", "3", "b"})}
